@@ -34,9 +34,22 @@ def exc_info(e: BaseException) -> dict:
     }
 
 
+import os as _os
+
+HOST_STACK = _os.environ.get("VERIF_HOST_STACK", "1") == "1"   # library calls see the stack head-room of a host program
+
+
 def compile_(query: str, env=None):
     """Return ("ok", compiled) or ("err", info)."""
     env = env or DEFAULT_ENV
+    if HOST_STACK:
+        with host_stack():
+            try:
+                return "ok", env.compile(query)
+            except RecursionError as e:
+                return "err", exc_info(e)
+            except Exception as e:  # noqa: BLE001
+                return "err", exc_info(e)
     try:
         return "ok", env.compile(query)
     except RecursionError as e:
@@ -52,6 +65,13 @@ def nodes_of(nodelist):
 def find(query, doc, env=None):
     """Return ("ok", [(location, value)...]) or ("err", info). query may be text or compiled."""
     env = env or DEFAULT_ENV
+    if HOST_STACK:
+        with host_stack():
+            try:
+                q = env.compile(query) if isinstance(query, str) else query
+                return "ok", nodes_of(q.find(doc))
+            except Exception as e:  # noqa: BLE001
+                return "err", exc_info(e)
     try:
         q = env.compile(query) if isinstance(query, str) else query
         return "ok", nodes_of(q.find(doc))
